@@ -7,7 +7,7 @@ def _c03_nontrivial(cf):
 
 
 CONFIG = dict(
-    correspondence="GoImap.Resp (Model/RespWire.lean, Model/RespGrammar.lean): printFetch/printList/printStatus/printSelect/printSearch/printMove/printNamespace/printExpunges and the APPENDUID/COPYUID completion lines vs the bytes the real imapserver writers put on an in-memory connection (byte for byte); readResponse + deliver* (routing to the waiting command) applied to those bytes vs what the real imapclient's Wait/Collect/Next delivered. ENVELOPE and BODY/BODYSTRUCTURE items and CAPABILITY are not mirrored yet (oracle only)",
+    correspondence="GoImap.Resp (Model/RespWire.lean, Model/RespGrammar.lean): printFetch/printList/printStatus/printSelect/printSearch/printMove/printNamespace/printExpunges and the APPENDUID/COPYUID completion lines vs the bytes the real imapserver writers put on an in-memory connection (byte for byte); readResponse + deliver* (routing to the waiting command) applied to those bytes vs what the real imapclient's Wait/Collect/Next delivered. ENVELOPE and BODY/BODYSTRUCTURE are mirrored too (Model/RespBody.lean; mime.QEncoding.Encode / WordDecoder.DecodeHeader enter as per-case tables computed by the real mime package); CAPABILITY is oracle only. The mirror claims the writer API's documented domain: outside it a difference is reported in the model column but not counted",
     rule="a scripted backend (respSession) hands generated data to the real server writers; the real client issues the matching command (FETCH/UID FETCH in streaming and Collect mode, LIST with and without RETURN (STATUS), STATUS, SELECT/EXAMINE, SEARCH/UID SEARCH with every RETURN subset, APPEND, COPY, MOVE, NAMESPACE, EXPUNGE/UID EXPUNGE, CAPABILITY) with nothing / UTF8=ACCEPT / IMAP4rev2 enabled. Values: every item subset and order; strings from an adversarial alphabet (CR, LF, quote, backslash, NUL, 8-bit and invalid UTF-8, NIL look-alikes, 4095..4097-byte strings) in every string field; body-structure trees of depth <= 5; literals of 0,1,..,4095,4096,4097,65537 bytes written in pieces; a separate stream with RFC 2047 encoded-word look-alikes and one with values outside the writer API's documented domain (judged only for 'no crash'). Non-trivial = not ill-formed and some data supplied; distinct = different case line",
     nontrivial=_c03_nontrivial,
     trusted=["mime.QEncoding / mime.WordDecoder, net/mail.ParseDate and go-message's Message-ID parsing are below the modelled interface (ENVELOPE is judged by the oracle on what the client delivered)",
@@ -17,5 +17,5 @@ CONFIG = dict(
     leanchecker=True,
     timeout={"quick": 600, "thorough": 7200, "widen": 1800},
     level_text="proof (partial): theorems about the mirrored wire primitives (quoted-string round trip for every byte string) and the two repaired defects; the mirror of the server writers and client readers is tied byte-for-byte to the real server and to the real client's deliveries on every run, and the oracle `delivered = canon supplied` (documented canonicalisations only) judges every response family on what the real client returned",
-    level_note="Trusted: Lean kernel; harness/driver; mime/net-mail/go-message/time below the modelled interface. resp_fidelity per family is listed with its status at the top of lean/GoImap/Props/C03.lean; ENVELOPE and BODYSTRUCTURE are validated by the oracle only.",
+    level_note="Trusted: Lean kernel; harness/driver; mime/net-mail/go-message/time below the modelled interface. resp_fidelity per family is listed with its status at the top of lean/GoImap/Props/C03.lean; ENVELOPE and BODYSTRUCTURE are mirrored and tied byte-for-byte but no theorem is proved about them yet.",
 )
